@@ -92,6 +92,7 @@ fam("metadata sequence order", I("a", 1, md={"w": [1, 2]}), I("b", 1, md={"w": [
 fam("metadata nesting", I("a", 1, md={"w": [1, [2]]}), I("b", 1, md={"w": [[1], 2]}), I("c", 1, md={"w": {"k": 1}}), I("d", 1, md={"w": {"k": 2}}), I("e", 1, md={"w": [1, [2]]}))
 fam("metadata flattening", I("a", 1, md={"w": ["1", "2"]}), I("b", 1, md={"w": ["1, 2"]}), I("c", 1, md={"w": [12]}), I("d", 1, md={"w": [1, 2]}))
 fam("metadata arrays", I("a", 1, md={"w": big()}), I("b", 1, md={"w": big(600)}), I("c", 1, md={"w": big()}), I("d", 2, md={"w": big(600)}))
+fam("metadata arrays, one integrand on two ids", I("a", 1, md={"w": big()}), I("a", 2, md={"w": big(600)}), I("a", 3, md={"w": big()}), I("b", 4, md={"w": big(600)}), I("b", 5, md={"w": big(601)}))
 fam("metadata key order", I("a", 1, md={"p": 1, "q": 2}), I("b", 1, md={"q": 2, "p": 1}), I("c", 1, md={"p": 2, "q": 1}))
 fam("types and domains", I("a", 1), I("b", 1, itype="exterior_facet"), I("c", 1, mesh=1), I("d", itype="exterior_facet"), I("e", 2, itype="exterior_facet"), I("f", mesh=1))
 fam("interior facets and vertices", I("a", 1, itype="interior_facet"), I("b", itype="interior_facet"), I("c", 3, itype="vertex"), I("d", (1, 3), itype="interior_facet"))
@@ -107,6 +108,9 @@ fam("many everywhere integrals, three metadata", I("a", md={"q": 1}), I("b", md=
 def run(ctx) -> Report:
     rep = Report("C15")
     prog = ctx.prog
+    # the memo-key clause first: it needs no interpretation, and what it finds is reported even if a later clause cannot follow the code
+    from ..memokey import check_memo_keys, memo_rule  # noqa: F401
+    memo_rule(ctx, rep, "C15-key", ['ufl.algorithms.domain_analysis'])
     gfi = prog.get_function("ufl.algorithms.domain_analysis", "group_form_integrals")
     n_cases = 0
     for append in (True, False):
@@ -165,20 +169,20 @@ def run(ctx) -> Report:
                 out = ip.call_function(gfi, [form, domains, append], {})
                 got = Counter()
                 for itg in W.call_method(out, "integrals"):
-                    A = itg.attrs
-                    e = A["_integrand"]
+                    get = lambda name, itg=itg: W.call_method(itg, name)  # noqa: E731  (the public accessors of Integral)
+                    e = get("integrand")
                     chain = []
                     while ip.obj_class(e).name == "CoordinateDerivative":
                         ops = e.attrs["ufl_operands"]
                         chain.append(next(nm for nm, parts in cd_objs.items() if parts[0] is ops[1] or ip.obj_eq(parts[0], ops[1])))
                         e = ops[0]
                     cdname = tuple(sorted(chain))  # mixed second derivatives commute
-                    mesh_k = next(k for k, mm in enumerate(meshes) if mm is A["_ufl_domain"] or ip.obj_eq(mm, A["_ufl_domain"]))
-                    extra = tuple((next(k for k, mm in enumerate(meshes) if mm is d or ip.obj_eq(mm, d)), it) for d, it in A["_extra_domain_integral_type_map"].items())
-                    gkey = (mesh_k, A["_integral_type"], extra)
-                    sid = A["_subdomain_id"]
+                    mesh_k = next(k for k, mm in enumerate(meshes) if mm is get("ufl_domain") or ip.obj_eq(mm, get("ufl_domain")))
+                    extra = tuple((next(k for k, mm in enumerate(meshes) if mm is d or ip.obj_eq(mm, d)), it) for d, it in get("extra_domain_integral_type_map").items())
+                    gkey = (mesh_k, get("integral_type"), extra)
+                    sid = get("subdomain_id")
                     sids = sid if isinstance(sid, tuple) else (sid,)
-                    mdk = md_key(to_py(A["_metadata"]))
+                    mdk = md_key(to_py(get("metadata")))
                     for leaf in leaves(ip, e):
                         ch = atom_of.get(id(leaf))
                         if ch is None:
@@ -214,7 +218,6 @@ def run(ctx) -> Report:
     ]
     from ..memokey import memo_rule
 
-    memo_rule(ctx, rep, "C15-key", ['ufl.algorithms.domain_analysis'])
     return rep
 
 
